@@ -70,7 +70,12 @@ pub fn skeleton(msg: &str) -> String {
             out.push(c);
         }
     }
-    out.chars().take(100).collect()
+    // cut at the first back-tick: what follows usually quotes the input
+    let out = match out.find('`') {
+        Some(i) => out[..i].to_string(),
+        None => out,
+    };
+    out.chars().take(80).collect()
 }
 
 /// Run a closure, turning a panic into a failing outcome.
